@@ -536,6 +536,27 @@ def run(chk):
         if m != ('match' in kinds):
             chk.violation('impl-vs-spec', desc, {'matches': m, 'analyze-string parts': parts})
         chk.nontrivial.add(text + '~' + subj)
+    # ---------------- 5b. fn:replace replacement strings (F&O 5.6.4): $N is the longest group number that exists, a single digit beyond
+    # the groups is the zero-length string, \\ and \$ are the escaped characters, anything else is FORX0004; with the q flag the
+    # replacement (and a backslash in the input) is literal. Expected values written from the rule.
+    RT = [("abracadabra", "bra", "*", '', "a*cada*"), ("abracadabra", "a(.)", "a$1$1", '', "abbraccaddabbra"), ("darted", "^(.*?)d(.*)$", "$1c$2", '', "carted"),
+          ("abc", "b", "$", '', 'FORX0004'), ("abc", "b", "\\", '', 'FORX0004'), ("abc", "b", "\\$", '', "a$c"), ("abc", "b", "\\\\", '', "a\\c"), ("abc", "b", "$0", '', "abc"),
+          ("abc", "(b)", "[$1]", '', "a[b]c"), ("abc", "(b)", "$2", '', "ac"), ("abc", "(b)", "$10", '', "ab0c"), ("abc", "b", "\\n", '', 'FORX0004'), ("abc", "b", "$a", '', 'FORX0004'),
+          ("abc", "(a)(b)(c)", "$3$2$1", '', "cba"), ("abcdefghijk", "(a)(b)(c)(d)(e)(f)(g)(h)(i)(j)(k)", "$11-$1", '', "k-a"), ("abcdefghijk", "(a)(b)(c)(d)(e)(f)(g)(h)(i)(j)(k)", "$12", '', "a2"),
+          ("abc", "(b)", "\\\\$1", '', "a\\bc"), ("abc", "(b)", "\\$1", '', "a$1c"), ("abc", "(b)", "$1\\$", '', "ab$c"), ("abc", "(b)|(x)", "[$2]", '', "a[]c"), ("abc", "(b)", "$01", '', "abc"),
+          ("abc", "b", "x\\\\", '', "ax\\c"), ("a.b", ".", "$1", 'q', "a$1b"), ("a\\b", "\\", "/", 'q', "a/b"), ("a\\b", "\\", "\\\\", 'q', "a\\\\b"), ("abc", "(?:b)(c)", "$1$1", '', "acc"),
+          ("abc", "B", "x", 'i', "axc"), ("AAAA", "A+?", "b", '', "bbbb"), ("abc", "x*", "y", '', 'FORX0003'), ("abc", "b", "x", 'z', 'FORX0001')]
+    for subj, pat, rep_s, fl, want in RT:
+        chk.evaluations += 1
+        chk.count('replace-replacement-string')
+        desc = {'input': subj, 'pattern': pat, 'replacement': rep_s, 'flags': fl}
+        try:
+            got = select(None, 'replace($s, $p, $r, $f)', variables={'s': subj, 'p': pat, 'r': rep_s, 'f': fl}, parser=XPath31Parser, item=1)
+        except ElementPathError as ex:
+            got = (ex.code or '').split(':')[-1]
+        if got != want:
+            chk.violation('impl-vs-spec', desc, {'impl': got, 'spec': want})
+        chk.nontrivial.add('replace:' + repr((subj, pat, rep_s, fl)))
     chk.rule = ('seeded random class expressions (chars, ranges, positive / negated escapes, negation, nested subtraction) x 26 probe code '
                 'points; seeded random expressions (depth <= 2) x {XPath mode with ^/$, XSD anchored mode, fn:matches with flags s / x} x '
                 'subjects sampled from the expression, mutated and random; corpora of malformed and well-formed patterns; multi-digit '
